@@ -9,7 +9,7 @@ src, name = sys.argv[1], sys.argv[2]
 skip_suite = "--skip-suite" in sys.argv
 meta = json.load(open(os.path.join(src, "meta.json")))
 wt = "/var/tmp/wt-confirm-%d" % os.getpid()
-tgt = "/var/tmp/wt-confirm-target"
+tgt = os.environ.get("H2V_CONFIRM_TARGET", "/var/tmp/wt-confirm-target")
 env = dict(os.environ, CARGO_TARGET_DIR=tgt, CARGO_NET_OFFLINE="true")
 KNOWN = "clear_recv_buffer_caps_capacity_before_overflow"
 
